@@ -100,7 +100,7 @@ class World:
         self.root_keys = dict(zip(self.rkids, self.rks))
         self.cfg = DCConfig(dict(self.root_keys), self.rkids[0], now=NOW, security="scripted")
         self.core = DCCore(self.cfg)
-        self.sds = {s: rsd.target_sd(rsd.canonical_sid_from_string(s)) for s in (SID_A, SID_B)}
+        self.sds = {s: rsd.target_sd(rsd.canonical_sid_from_string(s)) for s in (SID_A, SID_B, "S-1-5-21-100-200-300-9999")}
         self.uid = 0
         self.kw = dict(server="dc.verif.test", username="u", password="p", auth_protocol="ntlm")
 
@@ -262,6 +262,28 @@ def run_histories(spec, rec: Recorder):
         loop.close()
 
 
+SID_C = "S-1-5-21-100-200-300-9999"
+L0C = 360
+
+
+def random_letter(rng) -> tuple:
+    """Letters outside the exhaustive alphabet: three L0s, three SIDs, positions biased to edges and to
+    adjacent pairs such as (k,31) / (k+1,0)."""
+    r = rng.random()
+    if r < 0.08:
+        return ("load", rng.randrange(2))
+    if r < 0.14:
+        return ("policy", rng.choice(["public", "seed"]))
+    if r < 0.26:
+        return ("P", 0, rng.choice([SID_A, SID_B, SID_C]), rng.random() < 0.7)
+    l0 = rng.choice([L0A, L0A, L0B, L0C])
+    k = rng.randrange(0, 31)
+    p = rng.choice([(k, 31), (k + 1, 0), (k, 30), (k + 1, 1), (rng.randrange(32), rng.randrange(32)), (0, 0), (31, 31), (5, 7)])
+    if l0 == L0B and p > NOW[1:]:
+        p = (rng.randrange(0, NOW[1]), rng.randrange(32))
+    return ("U", rng.choice([0, 0, 0, 1]), rng.choice([SID_A, SID_A, SID_B, SID_C]), l0, p)
+
+
 def run_random(spec, rec: Recorder):
     mon.KDFS.install()
     w = World(spec)
@@ -271,7 +293,13 @@ def run_random(spec, rec: Recorder):
         for i in range(spec["n"]):
             depth = w.rng.choice([5, 6, 8, 12, 20, 30])
             # bias: RPC-obtained envelopes first, root key load in the middle or late
-            h = [w.rng.choice(LETTERS + [l for l in LETTERS if l[0] == "U"]) for _ in range(depth)]
+            if i % 2:
+                h = [w.rng.choice(LETTERS + [l for l in LETTERS if l[0] == "U"]) for _ in range(depth)]
+            else:
+                # few coordinates per history so that covering relations actually occur
+                pool = [random_letter(w.rng) for _ in range(w.rng.choice([4, 6, 9]))]
+                h = [w.rng.choice(pool) for _ in range(depth)]
+                rec.count("extended_alphabet_histories")
             run_history(rec, w, h, "rand2" if i % 3 == 0 else "rand", loop, two_caches=(i % 3 == 0))
             if i % 3 == 0:
                 rec.count("two_cache_histories")
